@@ -18,6 +18,19 @@ import z3
 from .sorts import World, CheckerError, parse_source, dataclass_info, REPO
 
 EAGER_FEASIBILITY = bool(os.environ.get('VERIF_EAGER_FEAS'))
+MAX_SELF_RECURSION = 6
+MAX_RECURSIVE_ACTIVATIONS = 300
+_BUDGET_LOG = {} if os.environ.get('VERIF_BUDGET_LOG') else None
+if _BUDGET_LOG is not None:
+    import atexit
+
+    def _dump_budget():
+        if _BUDGET_LOG:
+            with open(os.environ['VERIF_BUDGET_LOG'], 'a') as fh:
+                fh.write(repr(sorted(_BUDGET_LOG.items(), key=lambda kv: -kv[1])[:3]) + '\n')
+    atexit.register(_dump_budget)
+    import multiprocessing.util as _mpu
+    _mpu.Finalize(None, _dump_budget, exitpriority=0)
 MAX_INLINE_DEPTH = 40
 MAX_PATHS = 40000
 
@@ -730,8 +743,21 @@ class Interp:
         if isinstance(t, ast.Name):
             env.set(t.id, v)
         elif isinstance(t, (ast.Tuple, ast.List)):
-            if any(isinstance(e, ast.Starred) for e in t.elts):
-                raise CheckerError('starred assignment unsupported')
+            stars = [i for i, e in enumerate(t.elts) if isinstance(e, ast.Starred)]
+            if stars:
+                # a, *rest, z = items: defined for a sequence of concrete length
+                if len(stars) != 1 or hasattr(v, 'unpack'):
+                    raise CheckerError('starred assignment of a symbolic sequence unsupported')
+                items = list(self.iterate(v, t))
+                k, after = stars[0], len(t.elts) - stars[0] - 1
+                if len(items) < len(t.elts) - 1:
+                    raise PyRaise('ValueError', 'not enough values to unpack', t)
+                for e, x in zip(t.elts[:k], items[:k]):
+                    self.assign(e, x, env, module)
+                self.assign(t.elts[k].value, items[k:len(items) - after], env, module)
+                for e, x in zip(t.elts[k + 1:], items[len(items) - after:] if after else []):
+                    self.assign(e, x, env, module)
+                return
             if hasattr(v, 'unpack'):
                 items = v.unpack(self, len(t.elts), t)
             else:
@@ -1771,6 +1797,28 @@ class Interp:
         env = self.bind_args(f, args, kwargs, node)
         if self.depth > MAX_INLINE_DEPTH:
             raise CheckerError(f'inlining depth exceeded at {f.qualname}: recursion needs a contract')
+        # a function that calls itself is unrolled only a few levels (enough for recursion over a short concrete list); deeper self-recursion over
+        # symbolic data would fork at every level: it needs a contract (not analysable, never a violation)
+        stack = self.__dict__.setdefault('inline_stack', [])
+        mine = [nf for g, nf in stack if g is f]
+        if len(mine) >= MAX_SELF_RECURSION:
+            raise CheckerError(f'{f.qualname} calls itself more than {MAX_SELF_RECURSION} levels deep while being executed in place: recursion needs a contract')
+        if mine:
+            # self-recursion executed in place is bounded by a budget of activations per job: recursion that follows a concrete value (a pattern, a short
+            # list) stays far below it, recursion that follows the shape of a symbolic value forks at every level and would not end
+            budget = self.__dict__.setdefault('recursion_budget', {})
+            budget[f] = budget.get(f, 0) + 1
+            if _BUDGET_LOG is not None and budget[f] > _BUDGET_LOG.get(f.qualname, 0):
+                _BUDGET_LOG[f.qualname] = budget[f]
+            if budget[f] > MAX_RECURSIVE_ACTIVATIONS:
+                raise CheckerError(f'{f.qualname} recurses over symbolic data while being executed in place ({MAX_RECURSIVE_ACTIVATIONS} nested activations in this job): recursion needs a contract')
+        stack.append((f, 0))
+        try:
+            return self._inline_body(f, env)
+        finally:
+            stack.pop()
+
+    def _inline_body(self, f, env):
         self.depth += 1
         self.inlined.add(f'{f.module.rel}::{f.qualname}')
         try:
@@ -1851,6 +1899,12 @@ class Interp:
         if isinstance(v, Obj):
             return self.call(self.getattr(v, '__len__', node), [], {}, node)
         raise PyRaise('TypeError', f'len() of {self.sort_name(v)}', node)
+
+    def bi_next(self, args, kwargs, node):
+        it = args[0]
+        if hasattr(it, 'py_next'):
+            return it.py_next(self, node)
+        raise CheckerError('next() of a value that is not a modelled iterator')
 
     def bi_map(self, args, kwargs, node):
         """map over concrete-length iterables (evaluated eagerly: the interpreted code only consumes the result)"""
@@ -1974,7 +2028,7 @@ class Interp:
 
 _CALLABLES = (FuncVal, BoundMethod, ContractMethod, ClassVal)
 BUILTIN_EXC = set(EXC_PARENTS) | {'BaseException'}
-INTERP_BUILTINS = {'isinstance', 'len', 'reversed', 'zip', 'enumerate', 'range', 'all', 'any', 'max', 'min', 'sorted', 'repr', 'print', 'id', 'hash', 'map', 'filter'}
+INTERP_BUILTINS = {'isinstance', 'len', 'reversed', 'zip', 'enumerate', 'range', 'all', 'any', 'max', 'min', 'sorted', 'repr', 'print', 'id', 'hash', 'map', 'filter', 'next'}
 
 
 class InterpBuiltin:
